@@ -37,8 +37,19 @@ pub fn record_registration_pool(
     print_every: bool,
     pool: PoolArg,
 ) -> Recorded {
+    crate::unwind::ctx(move || record_registration_body(prog, variant, prog_no, var_no, print_every, pool))
+}
+
+fn record_registration_body(
+    prog: &Prog,
+    variant: Variant,
+    prog_no: usize,
+    var_no: usize,
+    print_every: bool,
+    pool: PoolArg,
+) -> Recorded {
     let mut rec = Recorder::new(variant, print_every);
-    rec.events.push(json!({"ev":"reset","prog":prog_no,"var":var_no}));
+    rec.events.push(json!({"ev":"reset","prog":prog_no,"var":var_no,"unwinding":crate::unwind::active()}));
     let (b, top) = rec.build(prog);
     rec.print(top, &b);
     let blay = b.verif_layout();
